@@ -117,6 +117,7 @@ def run(rep, tier):
     for lo, hi, res, n in classes:
         r1 = [r for r in res if r[0] == 'R1'][0]
         rep.add('R8', 'LDAC:[%d,%d]' % (lo, hi), r1[1], pos(emit.node) + ' hexasm::numNibbles / emitProgramBin', r1[2], nontrivial=False)
+    c05.rule_termination(rep, idx, 'R10')
     rep.rule('R9', 'an absolute reference to an unaligned label is rejected (import of C05-R3)', floor=15)
     from .c17 import _SubReport
 
